@@ -230,6 +230,8 @@ func (f *dagFamily) assign(r *rand.Rand, spec *vexec.CaseSpec) {
 		if f.gen.Preconds && r.Intn(100) < 25 {
 			s.HasPrecond = true
 			s.PrecondUnmet = r.Intn(2) == 0
+			s.PrecondN = 1 + r.Intn(3)
+			s.PrecondBadAt = r.Intn(s.PrecondN)
 		}
 	}
 	if f.gen.MaxActive {
